@@ -14,7 +14,8 @@ def run_bfs(prop, plans, seed, rule, assumptions):
         rep.notes.append("%s: BFS depth %d completed (%d distinct states, %d edges)" % (
             name, st.max_len, st.nodes, st.by_devs.get("edges", 0)))
     rep.coverage["rule"] = rule
-    rep.assumptions = assumptions
+    from mc import scan
+    rep.assumptions = list(assumptions) + [scan.audit()[1]]
     return rep
 
 
